@@ -67,6 +67,11 @@ class LoopMixin:
     def loop_havoc(self, st: St, spec, body, node, extra_names=()):
         """Forget what the loop body may change: assigned locals and the heap locations it may write."""
         names = self.assigned_names(body) | set(extra_names)
+        # earlier iterations may have allocated objects: the allocation counter at the head of an arbitrary iteration is
+        # somewhere at or above its value at loop entry (objects in between are 'fresh' with unconstrained contents)
+        A0 = st.A
+        st.A = smt.fresh('A_loop', smt.Int)
+        st.assume(st.A >= A0)
         for n in names:
             if n in st.loc:
                 old = st.loc[n]
